@@ -89,6 +89,7 @@ def main():
             H = A_.assume(pre + p['pc'])
             d = A_.ab(st - sh)
             P.oblige('vincdir.sigma_exit', 'geodesy.vincdir', tag, E.prove(z3.And(d < tol, d > -tol), H + A_.side, use_axioms=False), strict=True,
+                     goal=z3.And(st - sh < tol, st - sh > -tol), hyps=pre + list(p['pc']),
                      note='the loop is left by break only when |sigma_new - sigma| < 1e-12 (or after 1000 iterations)')
         phi2, L_, al2 = V.direct_finish(su, sig, two, az.t * PI / 180, f_, MSym)
         la2, lo2, az21 = [lift(v) for v in p['val']]
